@@ -1,6 +1,7 @@
 import Oracle.Proto
 import Oracle.Backoff
 import Oracle.Retry
+import Oracle.SharedRestart
 /-! Oracle suites of property C18. -/
 namespace Oracle.C18
 
@@ -36,7 +37,8 @@ def suites : List (String × Suite) := [
   ("retry", Oracle.Retry.model),
   ("retry-spec", Oracle.Retry.spec),
   ("retrytime-judge", Oracle.Retry.timeJudge),
-  ("formula", formula)
+  ("formula", formula),
+  ("shared-restart-judge", Oracle.SharedRestart.judge)
 ]
 
 end Oracle.C18
